@@ -16,21 +16,29 @@
 #define LEN_MAX			(1LL << 28)
 #define FRAMES_MAX		(1LL << 47)
 
-/* ghost results of the last dispatch call (assigned by the contracts below) */
-sf_count_t	g_codec_ret ;		/* items the codec reported */
-int			g_codec_calls ;		/* number of codec read/write calls */
-int			g_seek_calls ;
-int			g_hdr_calls ;		/* number of write_header calls */
-sf_count_t	g_seek_arg ;		/* last position asked of psf->seek */
-int			g_seek_mode ;
+/* ghost results of the dispatch calls made by the function under verification (assigned by the
+** contracts below); one object so that it costs one assigns target */
+struct verif_dispatch_ghost
+{	sf_count_t	codec_ret ;		/* items the codec reported */
+	int			codec_calls ;	/* number of codec read/write calls */
+	int			seek_calls ;
+	int			hdr_calls ;		/* number of write_header calls */
+	sf_count_t	seek_arg ;		/* last position asked of psf->seek */
+	int			seek_mode ;
+} gd ;
+#define g_codec_ret		gd.codec_ret
+#define g_codec_calls	gd.codec_calls
+#define g_seek_calls	gd.seek_calls
+#define g_hdr_calls		gd.hdr_calls
+#define g_seek_arg		gd.seek_arg
+#define g_seek_mode		gd.seek_mode
 /* ghost stream: the value of item g_idx of the data the codec delivers in this call */
 long long	g_item_bits ;
 
 #define SAME_BITS(lv, T)	(*(const T *) &(lv))
 
 /* the part of SF_PRIVATE a codec read/write/seek may change */
-#define CODEC_FRAME(psf)	(psf)->error, (psf)->header.indx, (psf)->header.end, (psf)->pipeoffset, \
-							g_codec_ret, g_codec_calls
+#define CODEC_FRAME(psf)	(psf)->error, (psf)->pipeoffset, __CPROVER_object_whole (&gd)
 
 #define DECL_CODEC_READ(T, UT, NAME)	\
 sf_count_t NAME (SF_PRIVATE *psf, T *ptr, sf_count_t len)	\
@@ -40,6 +48,7 @@ __CPROVER_requires (__CPROVER_w_ok (ptr, (size_t) len * sizeof (T)))	\
 __CPROVER_assigns (CODEC_FRAME (psf), __CPROVER_object_from (ptr))	\
 __CPROVER_ensures (0 <= __CPROVER_return_value && __CPROVER_return_value <= len)	\
 __CPROVER_ensures (g_codec_ret == __CPROVER_return_value && g_codec_calls == __CPROVER_old (g_codec_calls) + 1)	\
+__CPROVER_ensures (g_seek_calls == __CPROVER_old (g_seek_calls) && g_hdr_calls == __CPROVER_old (g_hdr_calls) && g_seek_arg == __CPROVER_old (g_seek_arg) && g_seek_mode == __CPROVER_old (g_seek_mode))	\
 __CPROVER_ensures (__CPROVER_return_value == len ==> psf->error == __CPROVER_old (psf->error))	\
 __CPROVER_ensures ((0 <= g_idx && g_idx < __CPROVER_return_value) ==> SAME_BITS (ptr [g_idx], UT) == (UT) g_item_bits)	\
 ;
@@ -57,6 +66,7 @@ __CPROVER_requires (__CPROVER_r_ok (ptr, (size_t) len * sizeof (T)))	\
 __CPROVER_assigns (CODEC_FRAME (psf))	\
 __CPROVER_ensures (0 <= __CPROVER_return_value && __CPROVER_return_value <= len)	\
 __CPROVER_ensures (g_codec_ret == __CPROVER_return_value && g_codec_calls == __CPROVER_old (g_codec_calls) + 1)	\
+__CPROVER_ensures (g_seek_calls == __CPROVER_old (g_seek_calls) && g_hdr_calls == __CPROVER_old (g_hdr_calls) && g_seek_arg == __CPROVER_old (g_seek_arg) && g_seek_mode == __CPROVER_old (g_seek_mode))	\
 __CPROVER_ensures (__CPROVER_return_value == len ==> psf->error == __CPROVER_old (psf->error))	\
 ;
 
@@ -70,16 +80,19 @@ sf_count_t codec_seek_c (SF_PRIVATE *psf, int mode, sf_count_t samples_from_star
 __CPROVER_requires (__CPROVER_r_ok (psf, sizeof (SF_PRIVATE)))
 __CPROVER_requires (samples_from_start >= 0)
 __CPROVER_requires (mode == SFM_READ || mode == SFM_WRITE || mode == SFM_RDWR)
-__CPROVER_assigns (psf->error, psf->header.indx, psf->header.end, psf->pipeoffset, g_seek_calls, g_seek_arg, g_seek_mode)
+__CPROVER_assigns (psf->error, psf->pipeoffset, __CPROVER_object_whole (&gd))
 __CPROVER_ensures (g_seek_calls == __CPROVER_old (g_seek_calls) + 1 && g_seek_arg == samples_from_start && g_seek_mode == mode)
+__CPROVER_ensures (g_codec_calls == __CPROVER_old (g_codec_calls) && g_hdr_calls == __CPROVER_old (g_hdr_calls) && g_codec_ret == __CPROVER_old (g_codec_ret))
 __CPROVER_ensures (__CPROVER_return_value == samples_from_start || (__CPROVER_return_value == PSF_SEEK_ERROR && psf->error != 0))
 ;
 
 /* write_header: only the header cache, the file and the error code */
 int container_write_header_c (SF_PRIVATE *psf, int calc_length)
 __CPROVER_requires (__CPROVER_r_ok (psf, sizeof (SF_PRIVATE)))
-__CPROVER_assigns (psf->error, psf->header.indx, psf->header.end, psf->dataoffset, psf->datalength, psf->filelength, psf->dataend, g_hdr_calls)
+__CPROVER_assigns (psf->error, psf->header.indx, psf->header.end, psf->dataoffset, psf->datalength, psf->filelength, __CPROVER_object_whole (&gd))
 __CPROVER_ensures (g_hdr_calls == __CPROVER_old (g_hdr_calls) + 1)
+__CPROVER_ensures (g_codec_calls == __CPROVER_old (g_codec_calls) && g_seek_calls == __CPROVER_old (g_seek_calls) && g_codec_ret == __CPROVER_old (g_codec_ret)
+					&& g_seek_arg == __CPROVER_old (g_seek_arg) && g_seek_mode == __CPROVER_old (g_seek_mode))
 ;
 
 #define KEEP_CONTRACT_ADDRESSES()	do { \
